@@ -226,7 +226,22 @@ def check(run):
     for cn, c in colon:
         start = q.strip_casts(c['args'][1]) if len(c['args']) > 1 else None
         if cn in ('rfind', 'find_last_of'):
-            run.ok('R4', 'authority-split', H + '::forward_request', fr.loc(c), 'separator = last \':\' (%s)' % q.render(fr, c)[:80])
+            # the LAST ':' of the authority lies inside the brackets when a bracketed IPv6 literal has no port: it counts as
+            # the separator only if it comes after the closing bracket
+            br = []
+            for c2 in fr.calls():
+                cn2 = (q.callee_name(c2) or '').split('::')[-1]
+                if cn2 in ('find', 'rfind', 'find_first_of', 'find_last_of') and c2.get('args'):
+                    nd2 = q.strip_casts(c2['args'][0])
+                    if (nd2.get('k') in ('char', 'int') and nd2.get('v') in (93, ']')) or (nd2.get('k') == 'str' and nd2.get('v') == ']'):
+                        br.append(c2)
+            names_c = {v_.get('name') for n_ in fr.all_nodes() if n_['k'] == 'decl' for v_ in n_['vars'] if v_.get('init') is not None and any(x_ is c for x_ in walk(v_['init']))}
+            names_b = {v_.get('name') for n_ in fr.all_nodes() if n_['k'] == 'decl' for v_ in n_['vars'] if v_.get('init') is not None and any(x_ is b_ for b_ in br for x_ in walk(v_['init']))}
+            cmpd = any(n_['k'] == 'bin' and n_['op'] in ('<', '>', '<=', '>=') and {q.render(fr, q.strip_casts(n_['lhs'])), q.render(fr, q.strip_casts(n_['rhs']))} & names_c and
+                       {q.render(fr, q.strip_casts(n_['lhs'])), q.render(fr, q.strip_casts(n_['rhs']))} & names_b for n_ in fr.all_nodes())
+            run.check(bool(br) and cmpd, 'R4', 'authority-split', H + '::forward_request', fr.loc(c),
+                      'the host/port separator is the LAST \':\' of the authority (%s) and its position is never compared with that of the closing bracket: for an IPv6 literal WITHOUT a port (http://[ff::2]/a) the last colon lies inside the brackets, the host handed to the resolver is "[ff:" and the client gets 503 for a lookup failure' % q.render(fr, c)[:60],
+                      'separator = last \':\', accepted only after the closing bracket of an IPv6 literal')
         elif start is None or start.get('k') in ('int', 'defarg') or q.int_value(start) is not None:
             run.violation('R4', 'authority-split', H + '::forward_request', fr.loc(c),
                           'the host/port separator is the FIRST \':\' after the scheme (%s): for an IPv6 literal such as http://[fd00::3]:8000/ it lies inside the brackets, the host handed to the resolver is garbage and the client gets 503 for a reachable origin' % q.render(fr, c)[:80])
